@@ -39,6 +39,11 @@ structure SideSt where
   /-- diagnosis only: the blocking as the *code's* rule computes it from the same BlockingBegin
       events (expiry, bypass flag of the latest updating action) -/
   codeBlk : Option (Int × Bool) := none
+  /-- diagnosis only: the current blocking was started or updated by a BlockingBegin that belongs
+      to a superseded action (which the code had executed earlier, at selection time) -/
+  blkFromStale : Bool := false
+  /-- diagnosis only: time of the last BlockingBegin / BlockingEnd seen on this side -/
+  lastBlkEv : Option Int := none
   deriving Repr, Inhabited
 
 structure MonSt where
@@ -123,25 +128,52 @@ def stepEv (st : MonSt) (x : EvActs) : Except String MonSt := do
     if let some b := overdue (st.side cl) t then
       let sd := st.side cl
       let tag := if b.lastDur == 0 then "[F11-zero-duration] "
-        else if earlyBlock sd b.expiry false then "[S1-early-exec] " else ""
+        else if sd.blkFromStale || earlyBlock sd b.expiry false then "[S1-early-exec] " else ""
       throw s!"{tag}BlockingEnd missing: {sideName cl} blocking expired but time moved on | last started or updated with {durClass b.lastDur} duration {b.lastDur}ns, expired at {b.expiry}, time moved to {t}"
   let sd := st.side e.client
   let sd ← match e.event with
     | .blockingBegin m =>
-      match sd.slots[m]?.join with
-      | some (.blockOutgoing _ dur bypass replace _, _) =>
-        pure { sd with blk := blockSpec sd.blk t (dur * 1000) bypass replace, slots := sd.slots.set m none,
-                       codeBlk := codeUpdate sd.codeBlk t (dur * 1000) bypass replace }
-      | _ =>
-        let tag := if sd.stale.any (fun (m', a, due) => m' == m && due == t && (match a with | .blockOutgoing .. => true | _ => false))
-          then "[S1-early-exec] " else ""
-        throw s!"{tag}BlockingBegin for {sideName e.client} machine without a pending BlockOutgoing | machine {m} at {t}"
+      -- the action this BlockingBegin belongs to: the pending one if it is due now; otherwise a
+      -- superseded / cancelled BlockOutgoing of this machine that was due exactly now (it had been
+      -- executed before it was superseded: C17 reports that, tagged S1; here its parameters are
+      -- the ones that take effect); otherwise whatever is pending
+      let staleNow := sd.stale.find? fun (m', a, due) =>
+        m' == m && due == t && (match a with | .blockOutgoing .. => true | _ => false)
+      -- diagnosis: if the blocking state changed (a BlockingBegin / BlockingEnd was seen) while this
+      -- action was pending, an early execution of it (S1) gives a different result than applying it
+      -- now: remember that for the tags of later anomalies of this blocking
+      let pendingOverlap (to : Nat) : Bool := match sd.lastBlkEv with
+        | some tl => decide (tl > t - to * 1000)
+        | none => false
+      let apply (sd : SideSt) (dur : Nat) (bypass replace : Bool) : SideSt :=
+        { sd with blk := blockSpec sd.blk t (dur * 1000) bypass replace,
+                  codeBlk := codeUpdate sd.codeBlk t (dur * 1000) bypass replace,
+                  lastBlkEv := some t }
+      match sd.slots[m]?.join, staleNow with
+      | some (.blockOutgoing to dur bypass replace _, due), stale? =>
+        if due == t || stale?.isNone then
+          pure { (apply sd dur bypass replace) with
+                   slots := sd.slots.set m none,
+                   blkFromStale := sd.blkFromStale || pendingOverlap to }
+        else
+          match stale? with
+          | some (_, .blockOutgoing _ dur' bypass' replace' _, _) =>
+            pure { (apply sd dur' bypass' replace') with
+                     blkFromStale := true,
+                     stale := sd.stale.filter fun (m', _, due') => !(m' == m && due' == t) }
+          | _ => pure { (apply sd dur bypass replace) with slots := sd.slots.set m none }
+      | _, some (_, .blockOutgoing _ dur' bypass' replace' _, _) =>
+        pure { (apply sd dur' bypass' replace') with
+                 blkFromStale := true,
+                 stale := sd.stale.filter fun (m', _, due') => !(m' == m && due' == t) }
+      | _, _ =>
+        throw s!"BlockingBegin for {sideName e.client} machine without a pending BlockOutgoing | machine {m} at {t}"
     | .blockingEnd =>
       let tag := if zeroBlockDueNow sd t then "[F11-zero-duration] "
-        else if earlyExpiryAt sd t then "[S1-early-exec] " else ""
+        else if sd.blkFromStale || earlyExpiryAt sd t then "[S1-early-exec] " else ""
       match sd.blk with
       | some b =>
-        if b.expiry == t then pure { sd with blk := none, codeBlk := none }
+        if b.expiry == t then pure { sd with blk := none, codeBlk := none, blkFromStale := false, lastBlkEv := some t }
         else throw s!"{tag}BlockingEnd on {sideName e.client} at another time than the blocking expires | at {t}, expiry {b.expiry}"
       | none => throw s!"{tag}BlockingEnd on {sideName e.client} without active blocking | at {t}"
     | .tunnelSent =>
@@ -165,7 +197,7 @@ def stepEv (st : MonSt) (x : EvActs) : Except String MonSt := do
           -- before any of the blocks due at this instant, after some of them, or after all of them
           let codeAllows := flagOf sd.codeBlk || dueNowAllows || flagOf codeNow
           let tag := if e.bypass && codeAllows then "[F7-bypass-overwrite] "
-            else if earlyBlock sd t e.bypass then "[S1-early-exec] " else ""
+            else if sd.blkFromStale || earlyBlock sd t e.bypass then "[S1-early-exec] " else ""
           throw s!"{tag}TunnelSent left the blocked {sideName e.client} (packet bypass={e.bypass}) | at {t}, padding={e.containsPadding}, every blocking action allowed bypass={b.allBypass}, expiry {b.expiry}"
       | none => pure sd
     | .paddingSent m =>
